@@ -38,17 +38,53 @@ var c08Tracked = map[string]string{
 type c04Path struct {
 	conds []string
 	calls []string
+	sigs  []string // per tracked call: ⟨call, first address-like argument, second, coins / contract argument⟩ (C04 round 3)
 	done  bool // returned successfully
 	fail  bool // returned an error
 }
 
 func (p c04Path) clone() c04Path {
-	return c04Path{conds: append([]string{}, p.conds...), calls: append([]string{}, p.calls...), done: p.done, fail: p.fail}
+	return c04Path{conds: append([]string{}, p.conds...), calls: append([]string{}, p.calls...), sigs: append([]string{}, p.sigs...), done: p.done, fail: p.fail}
+}
+
+// c04Refs: the closed lexical vocabulary of argument expressions (`Model/C04Sig.lean`, `Ref`); anything else is `.other`
+var c04Refs = map[string]bool{
+	"k_moduleName": true, "types_ModuleName": true, "ibctransfertypes_ModuleName": true, "k_moduleAddress": true,
+	"holder": true, "sender": true, "receiver": true, "from_": true, "erc20Contract": true, "pair_GetERC20Contract": true,
+	"bridgeToken": true, "coin": true, "targetCoin": true, "baseCoin": true, "ibcCoin": true, "addBridgeFee": true, "coins": true,
+	"mintCoins": true, "unlockCoins": true, "erc20types_ModuleName": true, "tokenPair_GetERC20Contract": true, "amount": true,
+}
+
+var c04Space = regexp.MustCompile(`\s+`)
+
+// c04Ref turns an argument expression into a constructor of `Ref`, lexically: `sdk.NewCoins(x)` -> x, `x.Bytes()` -> x,
+// `a.b` -> a_b, `f()` -> f
+func c04Ref(src string) string {
+	q := c04Space.ReplaceAllString(src, "")
+	if strings.HasPrefix(q, "sdk.NewCoins(") && strings.HasSuffix(q, ")") {
+		q = q[len("sdk.NewCoins(") : len(q)-1]
+	}
+	q = strings.TrimSuffix(q, ".Bytes()")
+	q = strings.TrimSuffix(q, "()")
+	q = strings.ReplaceAll(q, ".", "_")
+	if q == "from" {
+		q = "from_"
+	}
+	if c04Refs[q] {
+		return "." + q
+	}
+	return ".other"
 }
 
 // trackedCall returns the Lean constructor of the first tracked keeper call inside an expression, or "".
 func c04TrackedCall(n ast.Node) string {
-	res := ""
+	call, _ := c04TrackedCallSig(nil, n)
+	return call
+}
+
+// c04TrackedCallSig: the constructor and (with c != nil) the typed signature of the first tracked keeper call
+func c04TrackedCallSig(c *ctxT, n ast.Node) (string, string) {
+	res, sig := "", ""
 	ast.Inspect(n, func(x ast.Node) bool {
 		if res != "" {
 			return false
@@ -58,6 +94,22 @@ func c04TrackedCall(n ast.Node) string {
 				if v, ok := c04Tracked[se.Sel.Name]; ok {
 					if inner, ok := se.X.(*ast.SelectorExpr); ok && strings.HasSuffix(inner.Sel.Name, "eeper") {
 						res = v
+						if c != nil {
+							arg := func(i int) string {
+								if i < len(ce.Args) {
+									return c04Ref(c.src(ce.Args[i]))
+								}
+								return ".other"
+							}
+							switch se.Sel.Name {
+							case "SendCoinsFromAccountToModule", "SendCoinsFromModuleToAccount":
+								sig = "⟨" + v + ", " + arg(1) + ", " + arg(2) + ", " + arg(3) + "⟩"
+							case "MintCoins", "BurnCoins":
+								sig = "⟨" + v + ", " + arg(1) + ", .none, " + arg(2) + "⟩"
+							default: // ERC20Mint / ERC20Burn / ERC20Transfer(ctx, contract, from, to, amount)
+								sig = "⟨" + v + ", " + arg(2) + ", " + arg(3) + ", " + arg(1) + "⟩"
+							}
+						}
 						return false
 					}
 				}
@@ -69,7 +121,7 @@ func c04TrackedCall(n ast.Node) string {
 		}
 		return true
 	})
-	return res
+	return res, sig
 }
 
 func c04IsErrCond(c *ctxT, e ast.Expr) bool {
@@ -88,8 +140,9 @@ func c04Walk(c *ctxT, stmts []ast.Stmt, paths []c04Path) []c04Path {
 			switch s := st.(type) {
 			case *ast.IfStmt:
 				if s.Init != nil {
-					if call := c04TrackedCall(s.Init); call != "" {
+					if call, sig := c04TrackedCallSig(c, s.Init); call != "" {
 						p.calls = append(p.calls, call)
+						p.sigs = append(p.sigs, sig)
 					}
 				}
 				if c04IsErrCond(c, s.Cond) {
@@ -116,8 +169,9 @@ func c04Walk(c *ctxT, stmts []ast.Stmt, paths []c04Path) []c04Path {
 					p.done = true
 				} else {
 					last := s.Results[len(s.Results)-1]
-					if call := c04TrackedCall(last); call != "" {
+					if call, sig := c04TrackedCallSig(c, last); call != "" {
 						p.calls = append(p.calls, call)
+						p.sigs = append(p.sigs, sig)
 						p.done = true
 					} else if id, ok := last.(*ast.Ident); ok && id.Name == "nil" {
 						p.done = true
@@ -127,8 +181,9 @@ func c04Walk(c *ctxT, stmts []ast.Stmt, paths []c04Path) []c04Path {
 				}
 				next = append(next, p)
 			default:
-				if call := c04TrackedCall(st); call != "" {
+				if call, sig := c04TrackedCallSig(c, st); call != "" {
 					p.calls = append(p.calls, call)
+					p.sigs = append(p.sigs, sig)
 				}
 				next = append(next, p)
 			}
@@ -174,9 +229,35 @@ func extractC04(c *ctxT) {
 			{"convertERC20NativeCoin_other", []string{"-pair." + fx}}}},
 		{"x/erc20/keeper", "Keeper", "ConvertCoinNativeERC20", []c04Want{{"convertCoinNativeERC20", nil}}},
 		{"x/erc20/keeper", "Keeper", "ConvertERC20NativeToken", []c04Want{{"convertERC20NativeToken", nil}}},
+		// IBC aliases: voucher <-> base coin through the transfer module account
+		{"x/crosschain/keeper", "Keeper", "IBCCoinToBaseCoin", []c04Want{
+			{"ibcCoinToBaseCoin_notVoucher", []string{"+!strings.HasPrefix(coin.Denom"}},
+			{"ibcCoinToBaseCoin_voucher", []string{"-!strings.HasPrefix(coin.Denom"}}}},
+		{"x/crosschain/keeper", "Keeper", "BaseCoinToIBCCoin", []c04Want{
+			{"baseCoinToIBCCoin", []string{"-strings.HasPrefix(coin.Denom"}}}},
+		// refund of an outgoing bridge call: mint unless origin, unlock; then the older conversion system
+		{"x/crosschain/keeper", "Keeper", "bridgeCallTransferCoins", []c04Want{
+			{"bridgeCallTransferCoins_mint", []string{"+mintCoins.IsAllPositive()", "+unlockCoins.IsAllPositive()"}},
+			{"bridgeCallTransferCoins_unlock", []string{"-mintCoins.IsAllPositive()", "+unlockCoins.IsAllPositive()"}}}},
+		{"x/erc20/keeper", "Keeper", "ConvertDenomToTarget", []c04Want{
+			{"convertDenomToTarget_same", []string{"+coin.Denom == targetCoin.Denom"}},
+			{"convertDenomToTarget", []string{"-coin.Denom == targetCoin.Denom"}}}},
+		{"x/erc20/keeper", "Keeper", "convertNativeCoin", []c04Want{
+			{"convertNativeCoin_fromBase", []string{"+coin.Denom == metadata.Base"}},
+			{"convertNativeCoin_toBase", []string{"-coin.Denom == metadata.Base", "+targetCoin.Denom == metadata.Base"}},
+			{"convertNativeCoin_alias", []string{"-coin.Denom == metadata.Base", "-targetCoin.Denom == metadata.Base"}}}},
+		{"x/erc20/keeper", "Keeper", "convertNativeERC20", []c04Want{
+			{"convertNativeERC20_fromBase", []string{"+coin.Denom == metadata.Base"}},
+			{"convertNativeERC20_toBase", []string{"-coin.Denom == metadata.Base", "+targetCoin.Denom == metadata.Base"}},
+			{"convertNativeERC20_alias", []string{"-coin.Denom == metadata.Base", "-targetCoin.Denom == metadata.Base"}}}},
+		// precompile entry: ERC-20 in, base coin out (the bank part; the ERC-20 burn goes through the running EVM)
+		{"x/crosschain/precompile", "Keeper", "convertERC20", []c04Want{
+			{"precompileConvertERC20_fx", []string{"+tokenPair.IsNativeCoin()", "+tokenPair.GetDenom() == fxtypes.DefaultDenom"}},
+			{"precompileConvertERC20_nativeCoin", []string{"+tokenPair.IsNativeCoin()", "-tokenPair.GetDenom() == fxtypes.DefaultDenom"}},
+			{"precompileConvertERC20_nativeERC20", []string{"-tokenPair.IsNativeCoin()", "+tokenPair.IsNativeERC20()"}}}},
 	}
 	var sb strings.Builder
-	sb.WriteString("import FxVerif.Model.C04\nnamespace FxVerif.Gen.C04\nopen FxVerif.Model.Flows (Call)\nopen FxVerif.Model.C04 (BStep BGuard BExit RStep RGuard RExit Cmp CancelRule XStep)\n\n")
+	sb.WriteString("import FxVerif.Model.C04\nnamespace FxVerif.Gen.C04\nopen FxVerif.Model.Flows (Call)\nopen FxVerif.Model.C04 (BStep BGuard BExit RStep RGuard RExit Cmp CancelRule XStep Sig Ref FCall)\n\n")
 	facts := map[string]any{}
 	for _, f := range fns {
 		fd := c.findFunc(f.pkg, f.recv, f.name)
@@ -234,9 +315,22 @@ func extractC04(c *ctxT) {
 				}
 			}
 			sb.WriteString("def " + w.name + " : List Call := " + leanList(calls) + "\n")
+			// typed signatures (module / account / coin expression of every call), same path
+			sigs := []string{}
+			if len(hit) > 0 {
+				sigs = hit[0].sigs
+				for _, h := range hit[1:] {
+					if strings.Join(h.sigs, ",") != strings.Join(sigs, ",") {
+						sigs = append(append([]string{}, sigs...), "⟨.burnCoins, .other, .other, .other⟩") // ambiguous: poison
+						break
+					}
+				}
+			}
+			sb.WriteString("def " + w.name + "_sigs : List Sig := " + leanList(sigs) + "\n")
 		}
 		sb.WriteString("\n")
 	}
+	c04Compose(c, &sb)
 	c04Batch(c, &sb)
 	c04ExecuteClaim(c, &sb)
 	sb.WriteString("end FxVerif.Gen.C04\n")
@@ -538,4 +632,72 @@ func c04ExecuteClaim(c *ctxT, sb *strings.Builder) {
 	}
 	sb.WriteString("-/\ndef executeClaim_steps : List XStep := " + leanList(steps) + "\n\n")
 	c.facts["C04.executeClaim_steps"] = steps
+}
+
+// ---------------------------------------------------------------------------------------------------------------
+// composition: which money-moving functions a composite function calls, in source order (`List FCall`); for the
+// outgoing pool also the expression whose amount is moved.
+var c04FCalls = map[string]string{
+	"DepositBridgeToken": ".depositBridgeToken", "WithdrawBridgeToken": ".withdrawBridgeToken", "ConversionCoin": ".conversionCoin",
+	"BridgeTokenToBaseCoin": ".bridgeTokenToBaseCoin", "BaseCoinToBridgeToken": ".baseCoinToBridgeToken",
+	"IBCCoinToBaseCoin": ".ibcCoinToBaseCoin", "BaseCoinToIBCCoin": ".baseCoinToIBCCoin", "Transfer": ".ibcTransfer",
+	"ConvertCoin": ".convertCoin", "BaseCoinToEvm": ".baseCoinToEvm", "transferIBCHandler": ".transferIBCHandler",
+	"IbcRefund": ".ibcRefund", "AddUnbatchedTx": ".addUnbatchedTx",
+}
+
+func c04CallOrder(fd *ast.FuncDecl) []string {
+	var res []string
+	if fd == nil || fd.Body == nil {
+		return res
+	}
+	ast.Inspect(fd.Body, func(n ast.Node) bool {
+		if ce, ok := n.(*ast.CallExpr); ok {
+			if se, ok := ce.Fun.(*ast.SelectorExpr); ok {
+				if v, ok := c04FCalls[se.Sel.Name]; ok {
+					res = append(res, v)
+				}
+			}
+		}
+		return true
+	})
+	return res
+}
+
+func c04Compose(c *ctxT, sb *strings.Builder) {
+	type fn struct{ pkg, recv, name, def string }
+	for _, f := range []fn{
+		{"x/crosschain/keeper", "Keeper", "BridgeTokenToBaseCoin", "bridgeTokenToBaseCoin_calls"},
+		{"x/crosschain/keeper", "Keeper", "BaseCoinToBridgeToken", "baseCoinToBridgeToken_calls"},
+		{"x/crosschain/keeper", "Keeper", "IBCCoinToEvm", "ibcCoinToEvm_calls"},
+		{"x/crosschain/keeper", "Keeper", "IBCCoinRefund", "ibcCoinRefund_calls"},
+		{"x/crosschain/keeper", "Keeper", "SendToFxExecuted", "sendToFxExecuted_calls"},
+		{"x/crosschain/keeper", "Keeper", "transferIBCHandler", "transferIBCHandler_calls"},
+		{"x/crosschain/keeper", "Keeper", "addToOutgoingPool", "addToOutgoingPool_calls"},
+		{"x/crosschain/precompile", "Keeper", "ibcTransfer", "precompileIbcTransfer_calls"},
+	} {
+		fd := c.findFunc(f.pkg, f.recv, f.name)
+		calls := c04CallOrder(fd)
+		where := "(function not found)"
+		if fd != nil {
+			where = c.pos(fd)
+		}
+		sb.WriteString("/-- money-moving calls of `" + f.name + "` in source order — " + where + " -/\n")
+		sb.WriteString("def " + f.def + " : List FCall := " + leanList(calls) + "\n\n")
+		c.facts["C04."+f.def] = calls
+	}
+	// addToOutgoingPool: the coin handed to BaseCoinToBridgeToken
+	arg := "(not found)"
+	if fd := c.findFunc("x/crosschain/keeper", "Keeper", "addToOutgoingPool"); fd != nil && fd.Body != nil {
+		ast.Inspect(fd.Body, func(n ast.Node) bool {
+			if ce, ok := n.(*ast.CallExpr); ok {
+				if se, ok := ce.Fun.(*ast.SelectorExpr); ok && se.Sel.Name == "BaseCoinToBridgeToken" && len(ce.Args) >= 2 {
+					arg = c04Space.ReplaceAllString(c.src(ce.Args[1]), "")
+				}
+			}
+			return true
+		})
+	}
+	sb.WriteString("/-- the coin `addToOutgoingPool` hands to `BaseCoinToBridgeToken`: `" + strings.ReplaceAll(arg, "-/", "- /") + "` -/\n")
+	sb.WriteString("def addToOutgoingPool_movesAmountPlusFee : Bool := " + leanBool(arg == "amount.Add(fee)" || arg == "fee.Add(amount)") + "\n\n")
+	c.facts["C04.addToOutgoingPool_arg"] = arg
 }
